@@ -12,6 +12,9 @@ def run_prop(prop, extra_parts=()):
     run = Run(prop, cfg["level"])
     corpus = runner.load_corpus(cfg.get("corpus", prop))
     cases = runner.select(corpus, run.tier)
+    extra = cfg.get("extra_cases")
+    if extra:
+        cases = list(extra(run.tier)) + list(cases)
     defaults = dict(cfg["defaults"])
     if run.tier == "thorough":
         defaults.update(cfg.get("thorough_defaults", {}))
